@@ -94,7 +94,7 @@ def worker(task):
 def tasks_for(tier):
     base = seed() * 67867967
     out = []
-    nf, nl, ns = (14, 10, 24) if tier == 'quick' else (120, 80, 300)
+    nf, nl, ns = (14, 10, 24) if tier == 'quick' else (300, 200, 800)
     for i in range(nf):
         out.append(('fill', (base + i, 1 + i % 2, i % 3 == 0, c05.SPELL[i % len(c05.SPELL)], ['slab', 'two', 'sphere'][i % 3])))
     for i in range(nl):
